@@ -179,13 +179,16 @@ def ob_deque(w, P):
 
 def index_scn(w, P):
     N = P['N']
-    x = Ctx(w, P, kinds=('int',), tags=False, key_lo=0, key_hi=N + 1)
+    x = Ctx(w, P, kinds=('int', 'none') if P.get('nones') else ('int',), tags=False, key_lo=0, key_hi=N + 1)
     for rv in x.s.rowvars:
         assume(rv['expire_null'].z)
     contents = []
     for rv in x.s.rowvars:
         if bool(rv['alive']):
-            contents.append((int(rv['key']), rv['value']))
+            if P.get('nones') and bool(rv['isnone']):
+                contents.append((int(rv['key']), None))
+            else:
+                contents.append((int(rv['key']), rv['value']))
     return x, contents
 
 
@@ -253,6 +256,18 @@ def ob_index(w, P):
             ok, r, o = call_both(lambda: bool(ix != other), lambda: bool(od != other))
         else:
             ok, r, o = call_both(lambda: bool(ix == other), lambda: bool(od == other))
+    elif op in ('eq_dict_otherkey', 'ne_dict_otherkey'):
+        # an unordered mapping of the same length in which one key is replaced by a key the index does not hold
+        items = list(contents)
+        which = pick_int(x, 'which', 0, max(0, len(items) - 1))
+        oval = [None, v][pick_int(x, 'other_is_value', 0, 1)]
+        if items:
+            items[which] = (N + 5, oval)
+        other = dict(items)
+        if op.startswith('ne'):
+            ok, r, o = call_both(lambda: bool(ix != other), lambda: bool(od != other))
+        else:
+            ok, r, o = call_both(lambda: bool(ix == other), lambda: bool(od == other))
     elif op == 'state':
         def f1():
             st = ix.__getstate__()
@@ -291,6 +306,8 @@ def jobs(tier):
             out.append(dict(id='deque.%s.N=%d' % (op, N), func='ob_deque', params=dict(N=N, op=op, policy='none'), tags=['C11', 'C08'], functions=DEQUE_F, weight=N * 3))
         for op in INDEX_OPS:
             out.append(dict(id='index.%s.N=%d' % (op, N), func='ob_index', params=dict(N=N, op=op, policy='none'), tags=['C12', 'C08'], functions=INDEX_F, weight=N * 3))
+        for op in ('eq_dict_otherkey', 'ne_dict_otherkey', 'eq_dict', 'eq_ordered', 'getitem', 'get', 'pop', 'setdefault', 'values', 'items'):
+            out.append(dict(id='index.%s.nones.N=%d' % (op, N), func='ob_index', params=dict(N=N, op=op, policy='none', nones=True), tags=['C12', 'C01'], functions=INDEX_F, weight=N * 4))
     return out
 
 
